@@ -131,6 +131,50 @@ def run(chk):
                 chk.report_known(f, why)
             elif len(chk.violations) < 6:
                 chk.violation("input", why, case={"kind": "prog", "text": text, "fault_lines": list(line), "fault": fault}, actual=(r[0][1][0][:1500] if r[0][0] == "err" else r[0][1]))
+    # ---- projects: a fault in one file of several; the diagnostic names THAT file and quotes ITS lines
+    import c13 as _c13
+    pcases = []
+    for k in range(40 if thorough else 12):
+        files = _c13.project(rng, 700 + k)
+        if len(files) < 2:
+            continue
+        for _ in range(2):
+            fi = rng.randrange(len(files))
+            kind = rng.choice(["lex", "syntax", "type", "type"])
+            fault = rng.choice(FAULT_LINES[kind])
+            rel, text = files[fi]
+            faulty = list(files)
+            faulty[fi] = (rel, text + fault + "\n")
+            pcases.append((faulty, fi, kind, fault))
+    pres = chk.harness("proj", [("q%d" % i, _c13.payload(c[0])) for i, c in enumerate(pcases)], parallel=16)
+    pstats = {"rejected": 0, "right_file": 0}
+    for i, (files, fi, kind, fault) in enumerate(pcases):
+        verdict, msgs, _tree = _c13.parse_result(pres.get("q%d" % i, "MISSING"))
+        if verdict != "err":
+            continue
+        pstats["rejected"] += 1
+        rel, text = files[fi]
+        flines = text.split("\n")
+        why = None
+        named = False
+        for m in msgs:
+            for mm in LOC.finditer(m):
+                path = mm.group(1)
+                if path.endswith(rel):
+                    named = True
+                elif path != "<unknown>" and any(path.endswith(r) for r, _ in files):
+                    why = why or "a diagnostic for the fault in %s names %s" % (rel, path)
+            for q in QUOTED.finditer(m):
+                n, quoted = int(q.group(1)), q.group(2)
+                if not (1 <= n <= len(flines)) or flines[n - 1].rstrip("\r") != quoted:
+                    why = why or "quoted line %d %r is not a line of the faulty file %s" % (n, quoted, rel)
+        if why is None and not named:
+            why = "no diagnostic names the faulty file %s" % rel
+        if why is None:
+            pstats["right_file"] += 1
+        elif len(chk.violations) < 6:
+            chk.violation("input", why + " (%s fault %r in file %d of %d)" % (kind, fault, fi + 1, len(files)), case={"kind": "proj", "files": files, "faulty": rel}, actual=msgs[0][:1500] if msgs else "")
+    chk.cov["oracle_projects"] = {"spec": "a single fault in one file of a project: every diagnostic names that file and quotes its lines", "cases": len(pcases), "stats": pstats}
     chk.sample({"fault": cases[0][3], "lines": list(cases[0][1]), "diagnostic": (res[0][0][1][0][:300] if res[0][0][0] == "err" else res[0][0][0])})
     chk.cov["oracle"] = {"spec": "every rejection: non-empty diagnostics, path of the file, positions inside the text, quoted lines verbatim, and some position on the line of the injected fault",
                          "mutants": len(cases), "stats": stats}
